@@ -470,7 +470,7 @@ fn main() {
         }
     }
     // ---- sequence histories
-    let nh = if thorough { 12000 } else { 1600 };
+    let nh = if thorough { 6000 } else { 1600 };
     for n in 0..nh {
         let plan = gen_hist(&mut r, thorough && n % 4 == 0);
         let p = &profs[n % profs.len()];
@@ -481,7 +481,7 @@ fn main() {
             key: format!("{}|{:?}|{:?}", p.name, plan.sent, plan.order), kind: "history".into() });
     }
     // ---- byte-level layout scripts (model with interpreted crypto terms vs implementation vs RFC reference)
-    let nl = if thorough { 4000 } else { 440 };
+    let nl = if thorough { 1600 } else { 440 };
     let mut roc_nz = 0u64;
     for n in 0..nl {
         let p = &profs[n % profs.len()];
